@@ -526,7 +526,10 @@ def bounded_native(ck):
                     fails.append({"obligation": "bounded.units", "clause": "compatible unit accepted", "input": {"field": ".".join(fieldpath), "given": str(given)}, "observed": repr(ex)[:120]})
         for d, what in (({"detector": {"initial_position": {"altitude": "3 s"}}}, "incompatible unit"), ({"detector": {"radio": {"low_frequency": 300.0, "high_frequency": 300.0}}}, "empty band"),
                         ({"detector": {"radio": {"low_frequency": "2 GHz", "high_frequency": "300 MHz", "enable": False}}}, "inverted band (disabled radio)"),
-                        ({"detector": {"radio": {"low_frequency": 500.0, "high_frequency": 100.0}}}, "inverted band")):
+                        ({"detector": {"radio": {"low_frequency": 500.0, "high_frequency": 100.0}}}, "inverted band"),
+                        ({"detector": {"radio": {"low_frequency": 500.0}}}, "inverted band (only the lower edge given, upper edge at its 300 MHz default)"),
+                        ({"detector": {"radio": {"low_frequency": "1 GHz"}}}, "inverted band (lower edge 1 GHz, upper edge default)"),
+                        ({"detector": {"radio": {"high_frequency": 20.0}}}, "inverted band (only the upper edge given, below the 30 MHz default lower edge)")):
             n += 1
             try:
                 NssConfig(**d)
